@@ -109,6 +109,57 @@ def handleC07 : List String → Verdict
       { mismatch := if ok then none else some s!"source map tables differ from the model after {adds.length} add(s)",
         nontrivial := adds.any (fun (v, _, _) => v.contains 10 || v.any (· ≥ 128)), tags := ["smadd"], sig := "smadd" }
     | _, _, _ => .badOp
+  | ["symadd", addsS, resS] =>
+    let rng4 : List String → Option (Rng × Rng) := fun fs =>
+      match fs.mapM parsePos with
+      | some [a, b, c, d] => some (⟨a, b⟩, ⟨c, d⟩)
+      | _ => none
+    match (addsS.splitOn ";").mapM (fun item => rng4 (item.splitOn "|")) with
+    | some adds =>
+      let m := addSymbols adds
+      let show_ : Option Rng → String := fun r => match r with
+        | some r => s!"{r.from_.index},{r.from_.line},{r.from_.col}|{r.to.index},{r.to.line},{r.to.col}"
+        | none => "0"
+      let want := adds.map fun a => show_ (symTarget m a.1.from_.line a.1.from_.col) ++ "/" ++ show_ (symSource m a.2.from_.line a.2.from_.col)
+      { mismatch := if ";".intercalate want == resS then none else
+          some s!"symbol range lookups differ from the model after {adds.length} AddSymbolRange call(s): impl={resS} model={";".intercalate want}",
+        nontrivial := adds.length > 1, tags := ["symadd"], sig := "symadd" }
+    | none => .badOp
+  | ["syms", origin, srcH, genH, symsS] =>
+    match hexField srcH, hexField genH with
+    | some _src, some gen =>
+      let trim : Bytes → Bytes := fun b =>
+        let ws := fun (c : UInt8) => c == 32 || c == 9 || c == 10 || c == 13
+        ((b.dropWhile ws).reverse.dropWhile ws).reverse
+      let rng2 : String → Option Rng := fun s => match (s.splitOn "|").mapM parsePos with
+        | some [a, b] => some ⟨a, b⟩
+        | _ => none
+      let bad := (symsS.splitOn ";").filterMap fun item =>
+        match item.splitOn "/" with
+        | [kind, nameH, valH, srcR, foundS, backS] =>
+          match hexField nameH, hexField valH, rng2 srcR with
+          | some name, some val, some sr =>
+            if foundS == "0" then some s!"{kind} at line {sr.from_.line}, col {sr.from_.col}: no symbol range recorded" else
+            match rng2 foundS with
+            | none => some "unreadable range"
+            | some t =>
+              let text := slice gen t
+              let inBounds := t.from_.index ≤ t.to.index && t.to.index ≤ gen.length &&
+                decide (positionAt gen t.from_.index = t.from_) && decide (positionAt gen t.to.index = t.to)
+              let encloses :=
+                if kind == "go" then trim text == trim val
+                else if kind == "script" then List.isPrefixOf ([102, 117, 110, 99, 32] ++ name ++ [40]) text && (trim text).getLast? == some 125
+                else List.isPrefixOf ([102, 117, 110, 99, 32] ++ val) text && (trim text).getLast? == some 125
+              let back := rng2 backS == some sr
+              if inBounds && encloses && back then none
+              else some s!"{kind} at line {sr.from_.line}, col {sr.from_.col}: range in bounds and consistent={inBounds}, encloses the generated declaration={encloses}, maps back={back}"
+          | _, _, _ => some "unreadable symbol record"
+        | _ => some "unreadable symbol record"
+      { predfail := match bad.head? with
+          | none => none
+          | some b => some s!"{bad.length} top-level declaration(s) without a faithful symbol range; first: {b}",
+        nontrivial := (symsS.splitOn ";").length > 1, tags := [origin, "syms"], sig := "syms" }
+    | _, _ => .badOp
   | ["rw", insS, outsS, textH] =>
     match (insS.splitOn ";").mapM hexField, hexField textH with
     | some ins, some text =>
